@@ -48,7 +48,7 @@ CLAIMS["C10"] = {
     "technique": "static analysis: sibling agreement of list-unlink sites (delta hand-over), dominance and avoid-set reachability in call_out() (dequeue-before-invoke, per-entry setjmp, release on both branches, clock after drain, destructed-target test), data-dependence of the stored revolutions/slot on delay, clock and wheel position, not-destructed edge of the function pointer's owner before call_function_pointer",
     "text": "Decides the bookkeeping mechanism of call_out for all paths: every unlink site of the delta-encoded slot lists hands the removed delta to its successor, insertion is symmetric, "
             "the entry leaves the list before its callback can run, each entry has its own recovery point and is released on both setjmp branches, and destructed targets/arguments are filtered. "
-            "The revolutions stored for a new entry depend on delay, current_time and the wheel position call_out_time (a necessary condition while the wheel may lag the clock); the timing arithmetic itself over event histories (fires exactly once, not early, not late) is not decided. A function-pointer call_out is run only past an O_DESTRUCTED test of the pointer's owner.",
+            "The revolutions stored for a new entry depend on delay, current_time and the wheel position call_out_time (a necessary condition while the wheel may lag the clock); the timing arithmetic itself over event histories (fires exactly once, not early, not late) is not decided. A function-pointer call_out is run only past an O_DESTRUCTED test of the pointer's owner. A file-scope counter of the call-out wheel is never decremented twice for one entry on a path (C10-e).",
     "design_ref": "DESIGN.md §5 C10",
 }
 
@@ -73,7 +73,7 @@ CLAIMS["C14"] = {
     "technique": "static analysis: interprocedural slack dataflow (lower bound on free ring slots; summaries of room-testing helpers per sign of their result with constant arguments bound, partition on conditional arguments, raw-put helpers charged at their call sites) at every store into message_buf, structural checks of the modular cursor arithmetic in flush_message, who-may-write, sibling agreement, boundary analysis of snprintf-family truncation tests",
     "text": "Decides the ring-buffer arithmetic on all paths: each store into the output ring happens at the producer with at least one free slot (including the CR LF pair and the re-test after a flush) and is followed by the modular advance and the length increment; "
             "flush_message sends only the contiguous unsent chunk, advances the consumer modulo the size by the bytes actually sent and lowers the length by the same amount, and consumes nothing when send fails; only the ring API writes the three cursor fields. "
-            "A chunk length taken from a quantity that is not about the ring (the pending Synch count) only ever shortens the contiguous chunk. Text formatted into a fixed buffer on the output path is queued only when the truncation test puts a result of exactly the buffer size on the truncated side. In-order exactly-once delivery under arbitrary partial-write patterns is behavioural and not decided.",
+            "A chunk length taken from a quantity that is not about the ring (the pending Synch count) only ever shortens the contiguous chunk. Text formatted into a fixed buffer on the output path is queued only when the truncation test puts a result of exactly the buffer size on the truncated side. In-order exactly-once delivery under arbitrary partial-write patterns is behavioural and not decided. The urgent-data mark is set to message_length only under a test that the marked bytes had room (C14-f).",
     "design_ref": "DESIGN.md §5 C14",
 }
 
@@ -81,7 +81,7 @@ CLAIMS["C12"] = {
     "technique": "static analysis: guard dominance and avoid-set reachability in backend() and get_user_command(), who-may-write/read on the HAS_CMD_TURN bit over all units, must-pass-through of the cursor advance between the pick and the return of get_user_command, interprocedural provenance (constant / masked) of every value stored into the flag word that holds the turn bit",
     "text": "Decides the turn mechanism structurally: the grant loop covers every slot below max_users and precedes the command loop on every path of a backend iteration; "
             "the turn is consumed and a user selected only under (complete command) and (turn held), a user without a turn keeps command and turn, and no code but the grant loop and get_user_command touches the bit "
-            "(so command() issued from LPC is never limited). The round-robin cursor is advanced inside get_user_command on every path that returns a command, i.e. before the command can leave by longjmp. Fairness over schedules and per-user ordering are not decided. Every value stored into iflags is a constant or is cut down by a constant mask without the turn and command bits, at the store or at every call site.",
+            "(so command() issued from LPC is never limited). The round-robin cursor is advanced inside get_user_command on every path that returns a command, i.e. before the command can leave by longjmp. Fairness over schedules and per-user ordering are not decided. Every value stored into iflags is a constant or is cut down by a constant mask without the turn and command bits, at the store or at every call site. max_users, the bound of every scan of the user table, is never lowered (C12-h).",
     "design_ref": "DESIGN.md §5 C12",
 }
 
@@ -89,7 +89,7 @@ CLAIMS["C17"] = {
     "technique": "static analysis: must-pass-through (avoid-set reachability on the passing/stale edges of each staleness test, loop-iteration form for includes and inherits) in load_binary; writer/reader agreement on the preamble; bypass analysis of the include-list registration in add_program_file, must-pass-through of a recording call between failed include candidates, provenance of the stat() path of the configuration stamp, units-of-measure (bytes vs element index) propagation through locals, helper parameters and dedicated record fields of the compiler's memory blocks",
     "text": "Decides the staleness clause for all paths of load_binary: the successful return is reachable only through the passing edge of the source, driver-id, config-id, per-include and per-inherit (source and binary) tests, and no stale edge can reach it; "
             "check_times reports newer-as-stale; the preamble is written and read in one order; config_id derives from the simul_efun file's mtime only; every non-top file registered by the lexer reaches the include list the binary is checked against. "
-            "That the loaded program equals what the source compiles to (the first sentence of the property) is behavioural and not decided. Also decided: every include-list entry (a file that was included, or a place where one was looked for in vain) is tested in each iteration of the staleness loop, a failed include candidate is recorded before the next one is tried, and the configuration stamp is taken from a mudlib-relative name derived from the configured simul_efun object name; the patch list and the tables the binary is written from are addressed in one unit (a byte offset is never scaled again, an index never added to the raw block).",
+            "That the loaded program equals what the source compiles to (the first sentence of the property) is behavioural and not decided. Also decided: every include-list entry (a file that was included, or a place where one was looked for in vain) is tested in each iteration of the staleness loop, a failed include candidate is recorded before the next one is tried, and the configuration stamp is taken from a mudlib-relative name derived from the configured simul_efun object name; the patch list and the tables the binary is written from are addressed in one unit (a byte offset is never scaled again, an index never added to the raw block). The swap unit of quickSort divides the element size at every call site, so tables sorted before saving are sorted as a fresh compile sorts them (C17-h).",
     "design_ref": "DESIGN.md §5 C17",
 }
 
@@ -130,7 +130,7 @@ CLAIMS["C19"] = {
     "technique": "static analysis: lockset dataflow (must-hold) over the message queue, thread-root closures from the call graph with shared-variable atomicity check, who-may-write on the eventfd counter, cross-thread write sites relative to thread creation, record-size and must-store path analysis of the notification pipe's reader",
     "text": "Decides race-freedom structurally where it can: every access to a mutable field or slot of the message queue is under the queue mutex on every path, no path returns with it held, the blocking writer releases it around its wait; "
             "variables written in a thread root's closure (timer thread, worker thread) and read by the backend must be atomic or locked (three are not: recorded findings); an eventfd counter may only be written with the constant 1 "
-            "(the completion post encodes key/data in it: recorded finding); a variable a thread root writes is stored by other threads only before pthread_create (one site is not: recorded finding). On the pipe that replaced the eventfd each record is one atomic write, each read takes one record while the caller's array has room, every record taken is stored, and a completion is answered with 0 only behind a whole-record write (function summaries through file-local helpers). Exactly-once delivery under interleavings, FIFO order and termination of stop are schedule-dependent and not decided.",
+            "(the completion post encodes key/data in it: recorded finding); a variable a thread root writes is stored by other threads only before pthread_create (one site is not: recorded finding). On the pipe that replaced the eventfd each record is one atomic write, each read takes one record while the caller's array has room, every record taken is stored, and a completion is answered with 0 only behind a whole-record write (function summaries through file-local helpers). Exactly-once delivery under interleavings, FIFO order and termination of stop are schedule-dependent and not decided. The write end of the notify pipe is non-blocking, so a poster cannot stall against a main thread that is joining it (C19-c pipe-write-nonblocking).",
     "design_ref": "DESIGN.md §5 C19",
 }
 
